@@ -1,5 +1,8 @@
 package dtls
 
+// GENERATED from harness/C05/rx_13.go (entry kept: zzRx13OneRecord). C15: a DTLS 1.3 record is accepted only with exactly the
+// negotiated connection ID, and receiving a record never changes the endpoint's own connection ID.
+
 //symgo:pkg github.com/pion/dtls/v3
 //symgo:stub RecordProtection13 is a harness fake: UnmaskSequenceNumber is the identity, Open succeeds iff the symbolic per-generation flag is set and then returns content = record bytes minus the last one, inner type = last byte
 
@@ -147,7 +150,6 @@ func zzRx13OneRecord() {
 // delivered, no alert is produced, no error ends the read loop, no ACK or handshake message reaches the state
 // machines, the peer address is unchanged. Arbitrary version bytes, 48-bit sequence number and body.
 //
-//symgo:entry covers=legacy_framed_claiming_protection_dropped
 func zzRx13LegacyFramedRecordDropped() {
 	c := zzRxConn(&zzRxSuite{}, zzsymChoice("client", 2) == 1)
 	common := dtlsstate.CommonState(c.state)
